@@ -540,7 +540,7 @@ func impl(c Case) string {
 			return strconv.FormatInt(xmath.Abs(x), 10)
 		case "clamp":
 			return strconv.Itoa(xmath.Clamp(atoi(a[0]), atoi(a[1]), atoi(a[2])))
-		case "extras":
+		case "extras", "wsdepth":
 			return "n/a"
 		case "withstack":
 			return showErr(xerrors.WithStack(buildErr(a[0])))
@@ -595,6 +595,14 @@ func canonModel(c Case, out string) string {
 // shrinking: delete elements of list arguments while the failure persists
 
 func shrinkCase(c Case, fails func(Case) bool) Case {
+	if c.Fn == "wsdepth" { // the smallest depth that fails
+		for d := 1; d < atoi(c.Args[0]); d++ {
+			if nc := (Case{c.Fn, []string{strconv.Itoa(d)}}); fails(nc) {
+				return nc
+			}
+		}
+		return c
+	}
 	cur := c
 	for changed, rounds := true, 0; changed && rounds < 200; rounds++ {
 		changed = false
@@ -709,7 +717,7 @@ func (r *runner) batch(cs []Case) {
 	}
 	var withModel []Case
 	for _, c := range cs {
-		if c.Fn != "extras" {
+		if c.Fn != "extras" && c.Fn != "wsdepth" {
 			withModel = append(withModel, c)
 		}
 	}
@@ -1382,7 +1390,9 @@ func main() {
 		fmt.Printf("replay: %s\nimplementation: %s\n", c.Line(), impl(c))
 		k, what, _ := monitor(c)
 		fmt.Printf("monitor: %s %s\n", k, what)
-		if mo := run.modelOut([]Case{c}); mo != nil {
+		if c.Fn == "wsdepth" {
+			fmt.Println("correspondence: the call stack is outside the model (monitor only)")
+		} else if mo := run.modelOut([]Case{c}); mo != nil {
 			fmt.Printf("model: %s\n", mo[0])
 			if mo[0] != impl(c) {
 				fmt.Println("correspondence: model and implementation differ")
@@ -1411,6 +1421,8 @@ func main() {
 	// extreme index / count arguments (deterministic, complete on every tier)
 	ext := append(extremeSweep(), chunkzCases()...)
 	run.batch(ext)
+	// WithStack at the bottom of call stacks of every depth 1..300 and a few deeper ones (stack.go)
+	run.batch(stackSweep())
 	res.Extra["extreme_argument_cases"] = len(ext)
 
 	start := time.Now()
@@ -1441,7 +1453,7 @@ func main() {
 }
 
 var fnSet = func() map[string]bool {
-	m := map[string]bool{"chunkz": true}
+	m := map[string]bool{"chunkz": true, "wsdepth": true}
 	for _, f := range fnNames {
 		m[f] = true
 	}
